@@ -498,6 +498,10 @@ def manual_w_and_run(seed, on_job=None, mode=None, cfg_override=None, fault_for=
     return {'cfg': cfg, 'events': events, 'seed': seed, 'family': 'manual_w'}, log
 
 
+def _ver_key(v):
+    return tuple(int(x) if x.isdigit() else 10 ** 6 for x in v.split('.'))[:2] + (0 if v.count('.') >= 2 else 1,)
+
+
 def queue_matrix_and_run(seed, on_job=None, mode=None, cfg_override=None, fault_for=None):
     """Queue-matrix family: two or three pull requests on different destinations are all queued first (integration
     builds green), then every queue commit gets a status drawn independently (a third of them not SUCCESSFUL),
@@ -536,10 +540,20 @@ def queue_matrix_and_run(seed, on_job=None, mode=None, cfg_override=None, fault_
             for nme in gen.tips_of(p, world.refs()):
                 do({'e': 'build', 'ref': nme, 'state': 'SUCCESSFUL'})
             do({'e': 'job_pr', 'pr': p['id']})
+        single = rng.random() < 0.5      # exactly one queue commit is not green (the lower versions more often)
         for rounds in range(3):
             q = sorted(n_ for n_ in world.refs() if n_.startswith('q/w/'))
             if not q:
                 break
+            if single and rounds == 0:
+                byver = sorted(q, key=lambda n_: (_ver_key(n_.split('/')[3]), n_))
+                bad = byver[min(len(byver) - 1, int(abs(rng.gauss(0, 1.2))))]
+                order = list(q)
+                rng.shuffle(order)               # reports arrive in any order
+                for nme in order:
+                    do({'e': 'build', 'ref': nme, 'state': rng.choice(STATES[1:]) if nme == bad else 'SUCCESSFUL'})
+                do({'e': 'job_commit', 'ref': rng.choice(q)})
+                continue
             for nme in q:
                 if rounds == 0 or rng.random() < 0.5:
                     st = 'SUCCESSFUL' if rng.random() < (0.65 + 0.15 * rounds) else rng.choice(STATES[1:])
